@@ -308,6 +308,10 @@ Definition get_h (k : bytes) (h : list (bytes * bytes)) : option bytes :=
 Definition ensure (k v : bytes) (h : list (bytes * bytes)) : list (bytes * bytes) :=
   match get_h k h with Some _ => h | None => set_kv k v h end.
 
+(* "if v, ok := file.getHeader(k); ok { file.setHeader(k, encoder.Encode(charset, v)) }" *)
+Definition reencode (k : bytes) (wenc : N) (h : list (bytes * bytes)) : list (bytes * bytes) :=
+  match get_h k h with Some v => set_kv k (word_encode wenc v) h | None => h end.
+
 (* the body encoding addFiles uses (after the fix: taken from the cached header when present) *)
 Definition file_enc (f : file) (h1 : list (bytes * bytes)) : enc :=
   match get_h h_cte h1 with
@@ -331,7 +335,7 @@ Definition file_hdrs (wenc : N) (is_attachment : bool) (f : file) : list (bytes 
                             ++ bs "; filename=" ++ quoted ++ encname ++ quoted) h3 in
   let h5 := if is_attachment then h4
             else ensure h_cid (bs "<" ++ sanitize (f_name f) ++ bs ">") h4 in
-  (h5, e).
+  (reencode h_cid wenc h5, e).
 
 Definition with_hdr (f : file) (h : list (bytes * bytes)) : file :=
   mkfile (f_name f) (f_mime f) (f_enc f) (f_desc f) h (f_prod f).
@@ -356,7 +360,7 @@ Fixpoint add_files (files : list (file * enc)) (st : mw) : mw :=
   end.
 
 (* msgWriter.writePart *)
-Definition write_part (msg_charset : bytes) (p : part) (st : mw) : mw :=
+Definition write_part (wenc : N) (msg_charset : bytes) (p : part) (st : mw) : mw :=
   let cs := match p_charset p with [] => msg_charset | c => c end in
   let ctype := p_ctype p ++ bs "; charset=" ++ cs in
   let cte := enc_name (p_enc p) in
@@ -364,7 +368,7 @@ Definition write_part (msg_charset : bytes) (p : part) (st : mw) : mw :=
     if Nat.eqb (depth st) 0 then
       write_string crlf (write_header_uncounted h_ctype [ctype] (write_header_uncounted h_cte [cte] st))
     else
-      new_part ((match p_desc p with [] => [] | d => [(h_cdesc, [d])] end)
+      new_part ((match p_desc p with [] => [] | d => [(h_cdesc, [word_encode wenc d])] end)
                 ++ [(h_cte, [cte]); (h_ctype, [ctype])]) st in
   if err st1 then st1 else st1 |> write_body (p_prod p) (p_enc p).
 
@@ -447,7 +451,7 @@ Definition write_addr_headers (m : msg) (st : mw) : mw :=
                end) Gen.render_addr_headers st3.
 
 Definition write_parts (m : msg) (st : mw) : mw :=
-  fold_left (fun s p => s |> write_part (m_charset m) p) (m_parts m) st.
+  fold_left (fun s p => s |> write_part (m_wenc m) (m_charset m) p) (m_parts m) st.
 
 Definition add_files_safe (files : list (file * enc)) (st : mw) : mw :=
   if panicked st then st else add_files files st.
